@@ -281,6 +281,8 @@ func (n Name) ToRDNSequence() (ret RDNSequence) {
 	ret = n.appendRDNs(ret, n.PostalCode, oidPostalCode)
 	ret = n.appendRDNs(ret, n.Country, oidCountry)
 	ret = n.appendRDNs(ret, n.DomainComponent, oidDomainComponent)
+	ret = n.appendRDNs(ret, n.GivenName, oidGivenName)
+	ret = n.appendRDNs(ret, n.Surname, oidSurname)
 	// EV Components
 	ret = n.appendRDNs(ret, n.JurisdictionLocality, oidJurisdictionLocality)
 	ret = n.appendRDNs(ret, n.JurisdictionProvince, oidJurisdictionProvince)
